@@ -149,6 +149,7 @@ func init() {
 				first = c.Call.N
 			}
 			genVictims(t, c, sched, first)
+			genPrior(t, c)
 			return c
 		},
 		Check: func(ci interface{}, x *Ctx) {
